@@ -57,6 +57,12 @@ def parse_payload(raw: bytes):
 
 
 # ---- executing a history against the real code ---------------------------------------------------------------------
+# operation kinds that carry source + counter (manager operations) in the protocols pytezos forges
+MANAGER_KINDS = ['transaction', 'register_global_constant', 'reveal', 'transfer_ticket', 'origination', 'smart_rollup_add_messages',
+                 'delegation', 'set_deposits_limit', 'increase_paid_storage', 'update_consensus_key', 'smart_rollup_originate',
+                 'smart_rollup_execute_outbox_message', 'smart_rollup_cement', 'smart_rollup_publish', 'dal_publish_slot_header']
+
+
 def run_history(nc0: int, pend0: int, h: list, key, rng):
     """Returns (observations, ghost info, failures of (B))."""
     node = SimNode()
@@ -67,9 +73,13 @@ def run_history(nc0: int, pend0: int, h: list, key, rng):
     # shape in which this node reports pending operations: objects carrying their hash (current nodes), [hash, operation] pairs
     # whose operation has no hash field (older nodes), in `applied` or `unprocessed`, or a mixture
     style = rng.choice(['dict-applied', 'dict-unprocessed', 'pairs', 'pairs-applied', 'mixed', 'mixed'])
+    next_kind = [nc0 + pend0]    # rotates through the manager kinds, starting point varies with the case
 
     def add_pending(n_contents: int, tag: str):
-        op = {'branch': 'B', 'contents': [{'kind': 'transaction', 'source': pkh, 'counter': '0'} for _ in range(n_contents)], 'signature': 'sig'}
+        # every manager operation of the account consumes a counter, whatever its kind (seeded change C25-10 counted four kinds only)
+        kinds = [MANAGER_KINDS[(next_kind[0] + j) % len(MANAGER_KINDS)] for j in range(n_contents)]
+        next_kind[0] += n_contents
+        op = {'branch': 'B', 'contents': [{'kind': k, 'source': pkh, 'counter': '0'} for k in kinds], 'signature': 'sig'}
         st = style if style != 'mixed' else rng.choice(['dict-applied', 'dict-unprocessed', 'pairs', 'pairs-applied'])
         if st == 'dict-applied':
             node.mempool_applied.append({'hash': 'o' + tag, **op})
